@@ -279,18 +279,26 @@ pub fn run(args: &[String]) {
         }
     }
     // own-package references at every WIT position (never reported), self-instantiation at every
-    // component position (rejected)
+    // component position (rejected); the own package with and without a version in its
+    // directive, referred to without a version, with its own version and with another one
+    // (resolution identifies the own package by name alone, so discovery must too)
     let prelude = "interface i { type t = u32; f: func(); }\nworld w { import i; }\n";
-    for p in 0..np {
-        if POSITIONS[p].kind == "wit" && POSITIONS[p].name != "targets" {
-            let s = Slot { pos: p, pkg: own.to_string(), version: None };
-            cases.push((format!("own:{}", POSITIONS[p].name), render(own, &[s.clone()], prelude), false));
-            cases.push((format!("own:{}+import-path", POSITIONS[p].name), render(own, &[s, slot(1, &wit_pkgs[0])], prelude), false));
-        }
-        if POSITIONS[p].kind == "comp" {
-            let s = Slot { pos: p, pkg: own.to_string(), version: None };
-            cases.push((format!("self:{}", POSITIONS[p].name), render(own, &[s.clone()], ""), true));
-            cases.push((format!("self:new-in-let+{}", POSITIONS[p].name), render(own, &[slot(10, &comp_pkgs[0]), s], ""), true));
+    for (own_decl, ov) in [("t:doc", "unversioned"), ("t:doc@1.0.0", "versioned")] {
+        for (sv, svl) in [(None, "no-version"), (Some("1.0.0"), "version-1.0.0"), (Some("0.9.0"), "version-0.9.0")] {
+            for p in 0..np {
+                if POSITIONS[p].kind == "wit" {
+                    let s = Slot { pos: p, pkg: own.to_string(), version: sv.map(|v: &str| v.to_string()) };
+                    cases.push((format!("own[{ov},{svl}]:{}", POSITIONS[p].name), render(own_decl, &[s.clone()], prelude), false));
+                    cases.push((format!("own[{ov},{svl}]:{}+import-path", POSITIONS[p].name), render(own_decl, &[s, slot(1, &wit_pkgs[0])], prelude), false));
+                }
+                // a `new` of the own name at another version: the statement does not say whether that
+                // is "its own package" (wac says yes); only the plain cases carry a verdict
+                if POSITIONS[p].kind == "comp" && sv.is_none() {
+                    let s = Slot { pos: p, pkg: own.to_string(), version: None };
+                    cases.push((format!("self[{ov}]:{}", POSITIONS[p].name), render(own_decl, &[s.clone()], ""), true));
+                    cases.push((format!("self[{ov}]:new-in-let+{}", POSITIONS[p].name), render(own_decl, &[slot(10, &comp_pkgs[0]), s], ""), true));
+                }
+            }
         }
     }
     let outs: Vec<CaseOut> = cases.par_iter().map(|(label, text, es)| check_doc(&lib, &versions, own, text, *es, label)).collect();
